@@ -181,7 +181,17 @@ def step (s : S) (toks : List String) : S × String :=
       match s.links[i]? with
       | some l =>
         match setLinkFields l rest with
-        | some l' => let s' := { s with links := setAt s.links i l' }; (s', showSys s')
+        | some l' =>
+          -- `w=` / `br=` are harness injections (written directly); `weak=` / `ld=` / `cct=` are the
+          -- verdict stamps of the event loop: they go through the shell event `stamp` (keys that are not
+          -- given keep the link's current value, `cc_backing_off` is not a `setlink` key)
+          let inj : L := { l' with weak := l.weak, lossDegraded := l.lossDegraded, ccTarget := l.ccTarget }
+          let s1 : S := { s with links := setAt s.links i inj }
+          let stamped := rest.any fun t => t.startsWith "weak=" || t.startsWith "ld=" || t.startsWith "cct="
+          let s' := if stamped then
+              (Sys.step s1 (.stamp i l'.weak l'.lossDegraded l.ccBackingOff l'.ccTarget)).1
+            else s1
+          (s', showSys s')
         | none => bad
       | none => bad
     | none => bad
